@@ -18,5 +18,8 @@ for prof in ("debug", "release"):
     ok3, out3, _ = vlib.cargo_build("sim", prof)
     print("sim", prof, "ok" if ok3 else "FAILED")
     if not ok3: print(out3[-3000:])
+ok4, out4, _ = vlib.cargo_build("real", "debug")
+print("real", "ok" if ok4 else "FAILED")
+if not ok4: print(out4[-3000:])
 sys.exit(0 if ok and ok2 else 1)
 PY
